@@ -60,7 +60,8 @@ def from_wwm(dset):
         Formated dataset with the SpecDataset accessor in the `spec` namespace.
 
     """
-    dset = dset.rename(MAPPING)
+    names = set(dset.variables) | set(dset.dims)
+    dset = dset.rename({k: v for k, v in MAPPING.items() if k != v and k in names})
     # Calculating wind speeds and directions
     if "Uwind" in dset and "Vwind" in dset:
         dset[attrs.WSPDNAME], dset[attrs.WDIRNAME] = uv_to_spddir(
@@ -68,7 +69,7 @@ def from_wwm(dset):
         )
     # Assigning spectral coordinates
     dset = dset.assign_coords({attrs.FREQNAME: dset.SPSIG / (2 * np.pi)})
-    dset = dset.assign_coords({attrs.DIRNAME: dset.SPDIR * R2D})
+    dset = dset.assign_coords({attrs.DIRNAME: (dset.SPDIR * R2D) % 360})
     # Setting standard attributes
     set_spec_attributes(dset)
     # converting Action to Energy density and adjust density to Hz
